@@ -873,4 +873,12 @@ func c27CheckInvocation(c c27Case, x *vkit.Ctx, s c27Script, d *c27Dump, evType 
 	return false
 }
 
-func TestC27(t *testing.T) { vkit.Run(t, "C27", genC27, bodyC27) }
+func TestC27(t *testing.T) {
+	defer func() {
+		// the per-process helper directory (created lazily by c27GetSetup)
+		if d := c27GetSetup().dir; d != "" {
+			os.RemoveAll(d)
+		}
+	}()
+	vkit.Run(t, "C27", genC27, bodyC27)
+}
